@@ -31,13 +31,12 @@ import "github.com/dcaiafa/lox/internal/base/set"
 // First(D), and '+' by First('+'). Finally ε is in the final result only
 // because First(D) includes it.
 func First(g *Grammar, syms []Term) set.Set[*Terminal] {
-	visited := new(set.Set[Term])
 	if len(syms) == 1 {
-		return first(g, visited, syms[0])
+		return first(g, syms[0])
 	}
 	var firstSet set.Set[*Terminal]
 	for _, sym := range syms {
-		partialFirst := first(g, visited, sym)
+		partialFirst := first(g, sym)
 		firstSet.AddSet(partialFirst)
 
 		// If sym[i] includes ε, include FIRST(sym[i+1]) in FIRST(syms).
@@ -50,45 +49,62 @@ func First(g *Grammar, syms []Term) set.Set[*Terminal] {
 	return firstSet
 }
 
-func first(g *Grammar, visited *set.Set[Term], s Term) set.Set[*Terminal] {
+func first(g *Grammar, s Term) set.Set[*Terminal] {
 	if terminal, ok := s.(*Terminal); ok {
 		return set.New[*Terminal](terminal)
 	}
-
-	// Productions can contain recursion.
-	// E.g.: xs = xs x | x
-	if visited.Has(s) {
+	firstSet := g.firstSets()[s.(*Rule)]
+	if firstSet == nil {
 		return set.Set[*Terminal]{}
 	}
-	visited.Add(s)
+	return firstSet.Clone()
+}
 
-	rule := s.(*Rule)
-	firstSet := set.Set[*Terminal]{}
-	for _, prod := range rule.Prods {
-		if len(prod.Terms) == 0 {
-			firstSet.Add(Epsilon)
-			continue
-		}
-
-		addEpsilon := true
-		for _, term := range prod.Terms {
-			termFirst := first(g, visited, term)
-			hasEpsilon := false
-			termFirst.ForEach(func(s *Terminal) {
-				if s == Epsilon {
-					hasEpsilon = true
-					return
+// firstSets returns FIRST of every rule, computed as a least fixed point so
+// that recursive and nullable rules get their complete sets no matter where
+// they are referenced from. The result is cached until the grammar changes.
+func (g *Grammar) firstSets() map[*Rule]*set.Set[*Terminal] {
+	if g.firstCache != nil {
+		return g.firstCache
+	}
+	sets := make(map[*Rule]*set.Set[*Terminal], len(g.Rules))
+	for _, rule := range g.Rules {
+		sets[rule] = new(set.Set[*Terminal])
+	}
+	for changed := true; changed; {
+		changed = false
+		for _, rule := range g.Rules {
+			firstSet := sets[rule]
+			for _, prod := range rule.Prods {
+				addEpsilon := true
+				for _, term := range prod.Terms {
+					if terminal, ok := term.(*Terminal); ok {
+						changed = firstSet.Add(terminal) || changed
+						addEpsilon = false
+						break
+					}
+					termFirst := sets[term.(*Rule)]
+					hasEpsilon := false
+					if termFirst != nil {
+						termFirst.ForEach(func(s *Terminal) {
+							if s == Epsilon {
+								hasEpsilon = true
+								return
+							}
+							changed = firstSet.Add(s) || changed
+						})
+					}
+					if !hasEpsilon {
+						addEpsilon = false
+						break
+					}
 				}
-				firstSet.Add(s)
-			})
-			if !hasEpsilon {
-				addEpsilon = false
-				break
+				if addEpsilon {
+					changed = firstSet.Add(Epsilon) || changed
+				}
 			}
 		}
-		if addEpsilon {
-			firstSet.Add(Epsilon)
-		}
 	}
-	return firstSet
+	g.firstCache = sets
+	return sets
 }
